@@ -283,29 +283,32 @@ def term(node, env=None, depth=0):
     return '<%s>' % k
 
 
-def pat_term(p):
+def pat_term(p, anon=False):
+    """Canonical pattern string; with anon=True plain bindings print as `_` (rename-proof)."""
     k = p.get('k')
     if k == 'Wild':
         return '_'
     if k == 'Bind':
+        if anon:
+            return pat_term(p['sub'], anon) if p.get('sub') else '_'
         s = p['name']
         if p.get('sub'):
-            s += ' @ ' + pat_term(p['sub'])
+            s += ' @ ' + pat_term(p['sub'], anon)
         return s
     if k == 'PTupleStruct':
-        inner = [pat_term(x) for x in p['pats']]
+        inner = [pat_term(x, anon) for x in p['pats']]
         if p.get('dd') is not None:
             inner.insert(p['dd'], '..')
         return '%s(%s)' % (res_path(p['res']), ', '.join(inner))
     if k == 'PStruct':
-        fs = ', '.join('%s: %s' % (n, pat_term(x)) for n, x in p['fields'])
+        fs = ', '.join('%s: %s' % (n, pat_term(x, anon)) for n, x in p['fields'])
         if p.get('rest'):
             fs += (', ' if fs else '') + '..'
         return '%s{%s}' % (res_path(p['res']), fs)
     if k == 'POr':
-        return ' | '.join(pat_term(x) for x in p['pats'])
+        return ' | '.join(pat_term(x, anon) for x in p['pats'])
     if k == 'PTuple':
-        inner = [pat_term(x) for x in p['pats']]
+        inner = [pat_term(x, anon) for x in p['pats']]
         if p.get('dd') is not None:
             inner.insert(p['dd'], '..')
         return '(%s)' % ', '.join(inner)
@@ -314,9 +317,9 @@ def pat_term(p):
     if k == 'PPath':
         return res_path(p['res'])
     if k in ('PRef', 'PBox', 'PDeref'):
-        return '&' + pat_term(p['p'])
+        return '&' + pat_term(p['p'], anon)
     if k == 'PGuard':
-        return pat_term(p['p']) + ' if ' + term(p['g'])
+        return pat_term(p['p'], anon) + ' if ' + term(p['g'])
     return '<%s:%s>' % (k, p.get('dbg', ''))
 
 
